@@ -73,19 +73,35 @@ class Project:
             txt = txt[: mo.start()] + propval + txt[mo.end() :]
         return txt
 
-    def dfs(self, target_name, state):
+    def dfs(self, target_name, state, order):
+        """Depth first walk over the dependencies of a target.
+
+        state holds the targets on the path that is being walked, order
+        the targets that are done, each one after all its dependencies.
+        """
         state.add(target_name)
         target = self.get_target(target_name)
-        for dep in target.dependencies:
+        for dep in sorted(target.dependencies):
             if dep in state:
                 raise TaskError(
                     f"Dependency loop detected {target_name} -> {dep}"
                 )
-            self.dfs(dep, state)
+            if dep not in order:
+                self.dfs(dep, state, order)
+        state.remove(target_name)
+        order.append(target_name)
 
     def check_target(self, target_name):
-        state = set()
-        self.dfs(target_name, state)
+        self.dfs(target_name, set(), [])
+
+    def target_sequence(self, target_names):
+        """Give the named targets and all their dependencies, in an order
+        in which every target comes after its dependencies."""
+        order = []
+        for target_name in target_names:
+            if target_name not in order:
+                self.dfs(target_name, set(), order)
+        return order
 
     def dependencies(self, target_name):
         assert type(target_name) is str
@@ -200,21 +216,12 @@ class TaskRunner:
             self.logger.info("No targets to run!")
             return
 
-        # Check for loops:
-        for target in target_list:
-            project.check_target(target)
-
-        # Calculate all dependencies:
-        # TODO: make this understandable:
-        target_list = set.union(
-            *[project.dependencies(t) for t in target_list]
-        ).union(set(target_list))
-
-        # Lookup actual targets:
+        # Check for loops and put the targets and all their dependencies
+        # in a sequence where dependencies come first:
         target_list = [
-            project.get_target(target_name) for target_name in target_list
+            project.get_target(target_name)
+            for target_name in project.target_sequence(target_list)
         ]
-        target_list.sort()
 
         self.logger.info(f"Target sequence: {target_list}")
 
